@@ -1,6 +1,7 @@
 use crate::strategy::StrategyAdapter;
 use crate::{Protocol, Target, error::Result};
 use std::net::SocketAddr;
+use std::num::IntErrorKind;
 use uuid::Uuid;
 
 #[derive(Debug, Default)]
@@ -32,7 +33,12 @@ impl StrategyAdapter for PlayerFillStrategyAdapter {
                 let players = target
                     .meta
                     .get(&self.field)
-                    .and_then(|players| players.parse::<u32>().ok())
+                    .and_then(|players| match players.parse::<u32>() {
+                        Ok(players) => Some(players),
+                        // a count that does not fit is never below the maximum
+                        Err(err) if *err.kind() == IntErrorKind::PosOverflow => Some(u32::MAX),
+                        Err(_) => None,
+                    })
                     .unwrap_or(0);
                 (target, players)
             })
